@@ -330,7 +330,7 @@ const PRIMITIVES: [&str; 16] = [
     "bool", "int8", "uint8", "int16", "uint16", "int32", "uint32", "varint32", "varuint32", "int64", "uint64", "varint62", "varuint62", "float32", "float64",
     "string",
 ];
-pub const PRIMITIVE_NAMES_TOTAL: u64 = 16 * 6 * 3;
+pub const PRIMITIVE_NAMES_TOTAL: u64 = 16 * 6 * 4;
 
 /// primitive x kind of definition (or module) carrying its name x {no module, module M, module named
 /// like the primitive}; the keyword itself is used before and after (F-01i).
@@ -351,6 +351,16 @@ fn primitive_names_case(cx: &mut CaseCtx, input: Input) -> CaseResult {
         _ => format!("module \\{p}\n"),
     };
     let text = format!("{head}struct Before {{ a: {p} }}\n{def}\nstruct After {{ b: {p}, c: Sequence<{p}?> }}\n");
+    if scope == 3 {
+        // two files: a module named like the primitive comes first, the keyword is used in a later file
+        let first = format!("module \\{p}\n{def}\n");
+        let second = format!("module Later\nstruct Uses {{ b: {p}, c: Dictionary<{p}, Sequence<{p}>> }}\n");
+        cx.nontrivial = true;
+        cx.label("module-named-like-a-primitive-in-an-earlier-file");
+        cx.sample_with(|| json!({"files": [first, second]}));
+        pipeline(&[first.clone(), second.clone()], &SliceOptions::default())?;
+        return Ok(());
+    }
     cx.nontrivial = true;
     cx.label("definition-named-like-a-primitive");
     cx.label_if(scope == 0, "definition-named-like-a-primitive-at-global-scope");
